@@ -137,6 +137,22 @@ Lemma RepW_put hw w ti h t nx : RepW hw w -> Rep h t ->
   RepW (HW (upd_nth ti (fun _ => h) (htrees hw)) nx) (W (upd_nth ti (fun _ => t) (trees w)) nx).
 Proof. intros [E F] R. constructor; [reflexivity|]. cbn. now apply Forall2_upd. Qed.
 
+(* touching the root's list object changes no field the representation speaks about *)
+Lemma touch_fields h p :
+  hpar (touch_root h p) = hpar h /\ hch (touch_root h p) = hch h /\ htr (touch_root h p) = htr h /\
+  hinf (touch_root h p) = hinf h /\ hall (touch_root h p) = hall h /\ hreg (touch_root h p) = hreg h /\
+  hidx (touch_root h p) = hidx h /\ htyped (touch_root h p) = htyped h /\ hcalc (touch_root h p) = hcalc h.
+Proof. unfold touch_root. destruct (Nat.eqb p 0); cbn; repeat split. Qed.
+
+Lemma touch_root_id h p : p <> 0 -> touch_root h p = h.
+Proof. intros H. unfold touch_root. apply Nat.eqb_neq in H. now rewrite H. Qed.
+
+Lemma Rep_touch h t p : Rep h t -> Rep (touch_root h p) t.
+Proof.
+  intros R. destruct (touch_fields h p) as (E1 & E2 & E3 & E4 & E5 & E6 & E7 & E8 & E9).
+  constructor; rewrite ?E1, ?E2, ?E3, ?E4, ?E5, ?E6, ?E7, ?E8, ?E9; apply R.
+Qed.
+
 (* ---- liveness and guards agree ---- *)
 Lemma memn_In n l : memn n l = true <-> In n l.
 Proof.
@@ -317,6 +333,6 @@ Proof.
   - split; [reflexivity|]. cbn [snd]. unfold h_put, h_bump, bump. cbn [htrees hnext trees next].
     rewrite (repw_next hw w RW). apply (RepW_put_l hw w ti _ t); auto. now apply Rep_dangling.
   - split; [reflexivity|]. cbn [snd]. unfold h_put, put_tree, h_bump, bump. cbn [htrees hnext trees next].
-    rewrite (repw_next hw w RW). apply RepW_put; [assumption|].
+    rewrite (repw_next hw w RW). apply RepW_put; [assumption|]. apply Rep_touch.
     apply (Rep_add_leaf h t p pq ch (next w) (mk_info d id (default_kind t k) []) (norm_before b) Wt G Gp Gc Fn Nz).
 Qed.
